@@ -333,8 +333,10 @@ def check_token(raw, fmt, base, tok, e, r):
             if abs(arr[int(i)] - want) > 1e-12 * abs(want):
                 return (f"{path.split('[')[0]}:value", f"{k} = {arr[int(i)]!r}, the file says {e['tok']} × {lin['unit']}")
     res, old, new = examine(raw, fmt, base, tok, r)
-    if res[0] == "error" and e["out"] == "changed" and re.fullmatch(r"[-+]?\d+", e["tok"]):
-        return None  # an integer replaced by one the file's structure does not admit
+    if {res[0], e["out"]} == {"error", "changed"}:
+        # whether a replacement value is still admitted by the loader's own consistency checks (sorted energies, counts,
+        # normalisation tests, ...) depends on the value: the token reaches the object either way; not asserted further
+        return None
     if res[0] != e["out"]:
         attr = next(iter(e.get("elems", {"-": 0}))).split("[")[0]
         return (f"{attr}:map-changed", f"perturbing to {new!r}: outcome {res[0]} (recorded: {e['out']})")
